@@ -67,6 +67,34 @@ PROPERTIES = {
         "outside": ["JSON round trip of the Root record and the default JSON marshaler (encoding/json is not encodable)"],
         "assumptions": COMMON_ASSUMPTIONS,
     },
+    "C06": {
+        "runs": {
+            "quick": [H("HarnessC06a", b(N=2, K=2, MODE=m)) for m in (0, 1, 2, 3, 4, 5, 6)],
+            "thorough": [H("HarnessC06a", b(N=3, K=2, MODE=m), sample_every=300) for m in (0, 1, 2, 3)] + [H("HarnessC06a", b(N=3, K=3, MODE=m), sample_every=300) for m in (2, 3, 4, 5, 6)] +
+                        [H("HarnessC06a", b(N=4, K=1, MODE=m), sample_every=300) for m in (0, 1)],
+        },
+        "must_reach": ["C06.iter.each-correct", "C06.iter.complete", "C06.iter.ascending-once", "C06.cursor-same-entries", "C06.stop-count"],
+        "bounds_statement": "ordered pairs (old,new): new = old(N ascending entries) + K inserts/deletes, in memory and persisted; two independent trees of N and K entries, in memory and persisted; nil old; emptied tree on either side; DiffIter vs model difference, StartDiff/NextEntry vs DiffIter, early stop and callback error at every position",
+        "assumptions": COMMON_ASSUMPTIONS,
+    },
+    "C07": {
+        "runs": {
+            "quick": [H("HarnessC07a", b(N=3, K=1, MODE=1)), H("HarnessC07a", b(N=3, K=2, MODE=3))],
+            "thorough": [H("HarnessC07a", b(N=3, K=2, MODE=1), sample_every=500), H("HarnessC07a", b(N=4, K=1, MODE=1), sample_every=500), H("HarnessC07a", b(N=3, K=3, MODE=3), sample_every=500)],
+        },
+        "must_reach": ["C07.added-covers-new-only-nodes", "C07.added-within-new", "C07.added-once", "C07.removed-covers-old-only-nodes", "C07.replica-content"],
+        "bounds_statement": "pairs of persisted versions: descendant (N entries + K operations) and unrelated (N and K entries); reach sets computed by an independent decoder over the store; replica store = old nodes + added nodes",
+        "assumptions": COMMON_ASSUMPTIONS,
+    },
+    "C15": {
+        "runs": {
+            "quick": [H("HarnessC07a", b(N=3, K=1, MODE=1)), H("HarnessC07a", b(N=3, K=2, MODE=3))],
+            "thorough": [H("HarnessC07a", b(N=3, K=2, MODE=1), sample_every=500), H("HarnessC07a", b(N=4, K=1, MODE=1), sample_every=500), H("HarnessC07a", b(N=3, K=3, MODE=3), sample_every=500)],
+        },
+        "must_reach": ["C15.difflinks-reads", "C15.diffiter-reads", "C15.same-version-no-reads"],
+        "bounds_statement": "same pairs as C07, cache-less store; distinct names passed to Persist.Load during DiffLinks and DiffIter against D = |reach(old) symmetric-difference reach(new)| (a solver-decided inequality per path)",
+        "assumptions": COMMON_ASSUMPTIONS,
+    },
     "C08": {
         "runs": {
             "quick": [H("HarnessC08a", b(K=3, CACHE=0))],
